@@ -19,7 +19,7 @@ regression examples, and every clause below is now proved at full strength.
 Known finding that remains (block manager, C16): a source outage of `noDownloadLimit`+1 ticks ends
 `BlockManager.Run`; the waiting round is never told (`source-outage-wedges`).
 -/
-import BRV.Proofs.SyncMachine
+import BRV.Proofs.SyncInterleave
 
 namespace BRV.Sync
 
@@ -29,6 +29,8 @@ namespace BRV.Sync
 theorem sync_shape_facts :
     Facts.syncWalkOrder = "start-test,PreviousHash,nil-fallback,processed-test,hash=prev,prepend,height--" ∧
     Facts.syncWalkStopOp = "<=" ∧ Facts.syncStartGuardOp = "<" ∧
+    Facts.syncLastHashExpr = "m.headers.LastHash()" ∧
+    Facts.syncLastHeightExpr = "m.headers.HashHeight(lashHash)" ∧
     abortGuarded = true ∧ nilChecked = true := by decide
 
 /-- **C05 (the round never ends silently; works across the memory window).** For every view —
@@ -224,6 +226,159 @@ theorem C05_window_regression :
 /-- start height 0 and only the genesis header: genesis is planned (was: nothing). -/
 theorem C05_genesis_regression :
     plan { chain := [0] } (fun _ => false) 0 = some [(0, 0)] := by decide
+
+/-! ## 1b. the plan when new headers or a reorg arrive BETWEEN the round's own reads
+
+`planResE` reads the header repository once per call, in the order of the source
+(`LastHash`, `HashHeight(lashHash)`, then per loop iteration `PreviousHash` and, for pruned headers,
+`Hash(height)`, `Hash(height−1)`); the environment `E` may present a different view at every read.
+All views are views of one block tree `G` (parent and height of a block never change). -/
+
+/-- **C05 under arbitrary interleaving of header changes with the walk-back.** Whatever the
+    repository does between the reads, if the round reaches the request loop with `hashes = l`,
+    first height `f`, then:
+    * `l` is a chain by parent links that ends at the hash returned by the round's `LastHash` call
+      (the best-chain tip at that moment),
+    * the height the loop passes along with the i-th hash (`f + i`) is that block's TRUE height —
+      the heights belong to the hash that was read, not to whatever the tip is later,
+    * no planned block is recorded as processed, none is below the start height,
+    * the plan starts right: `f = start`, or the parent of the first block is processed.
+    (What is NOT claimed, deliberately: that `l` is still on the best chain at the END of the
+    walk-back — after a reorg in between it is the old chain; the 10 s poll of the request loop
+    abandons it, `C05_orphan_abandoned`.) -/
+theorem C05_interleaved_plan (G : Tree) (hG : G.WF) (E : Env) (hE : ∀ hist, (E hist).Cons G)
+    (hF : PrunedFinal E) (proc : Id → Bool) (start : Nat) (l : List Id) (f : Nat) (hist' : List Call)
+    (h : planResE E proc start = (.plan l f, hist')) :
+    ∃ last, (E []).lastHash = some last ∧ l.getLast? = some last ∧ Linked G l ∧
+      (∀ i x, l[i]? = some x → G.height x = f + i) ∧
+      (∀ x ∈ l, proc x = false) ∧ start ≤ f ∧
+      (f = start ∨ ∃ hd p, l.head? = some hd ∧ G.parent hd = some p ∧ proc p = true) := by
+  obtain ⟨last, h1, ok⟩ := planResE_ok G hG E hE hF proc start l f hist' h
+  obtain ⟨hd, hh, hf, hc⟩ := ok.head
+  refine ⟨last, h1, ok.last, ok.linked, ?_, ok.fresh, ok.ge, ?_⟩
+  · intro i x hx
+    rw [← hf]
+    exact linked_heights G hG l hd hh ok.linked i x hx
+  · rcases hc with hc | ⟨p, hp1, hp2⟩
+    · left; have := ok.ge; omega
+    · right; exact ⟨hd, p, hh, hp1, hp2⟩
+
+/-- the same, stated on the (hash, height) pairs handed to `AddRequest`: every pair carries the
+    block's true height, at or above the start height, and the block is unprocessed. -/
+theorem C05_interleaved_requests_labelled (G : Tree) (hG : G.WF) (E : Env) (hE : ∀ hist, (E hist).Cons G)
+    (hF : PrunedFinal E) (proc : Id → Bool) (start : Nat) :
+    ∀ p ∈ (planResE E proc start).1.reqList, G.height p.1 = p.2 ∧ start ≤ p.2 ∧ proc p.1 = false := by
+  intro p hp
+  cases hr : planResE E proc start with
+  | mk r hist' =>
+    rw [hr] at hp
+    cases r with
+    | plan l f =>
+      obtain ⟨last, _, _, _, hh, hfr, hge, _⟩ := C05_interleaved_plan G hG E hE hF proc start l f hist' hr
+      simp only [PlanRes.reqList] at hp
+      obtain ⟨i, hi, hpi⟩ := List.getElem_of_mem hp
+      have hg : (withHeights l f)[i]? = some p := by rw [List.getElem?_eq_getElem hi, hpi]
+      rw [withHeights_getElem?] at hg
+      cases hli : l[i]? with
+      | none => rw [hli] at hg; cases hg
+      | some x =>
+        rw [hli] at hg
+        simp only [Option.map_some, Option.some.injEq] at hg
+        subst hg
+        exact ⟨hh i x hli, by omega, hfr x (List.mem_of_getElem? hli)⟩
+    | noTip => simp [PlanRes.reqList] at hp
+    | belowStart => simp [PlanRes.reqList] at hp
+    | inSync => simp [PlanRes.reqList] at hp
+    | lost => simp [PlanRes.reqList] at hp
+    | errPrevHash => simp [PlanRes.reqList] at hp
+    | fuelOut => simp [PlanRes.reqList] at hp
+
+/-- a repository that stays put during the walk-back gives exactly the atomic semantics of
+    section 1 (so all of section 1 is the special case of a quiet tip). -/
+theorem C05_interleaved_atomic (v : View) (proc : Id → Bool) (start : Nat) :
+    (planResE (fun _ => v) proc start).1 = planRes v proc start := planResE_const v proc start
+
+/-- the request-loop theorems hold for a round whose plan was computed under interleaving:
+    requests are a prefix of that plan, no panic. -/
+theorem C05_interleaved_requests_prefix (s : S) (E : Env) (evs : List Ev) :
+    (run (startRoundE s E) evs).reqs <+: (planResE E s.isProcessed s.start).1.reqList := by
+  unfold startRoundE
+  have h := reqInv_startRoundWith { s with view := E (planResE E s.isProcessed s.start).2 }
+    (planResE E s.isProcessed s.start).1
+  exact reqInv_prefix _ _ (reqInv_run _ _ evs h)
+
+theorem C05_interleaved_no_panic (s : S) (E : Env) (evs : List Ev) :
+    (run (startRoundE s E) evs).rs ≠ .ended .panicDoubleClose ∧
+    (run (startRoundE s E) evs).rs ≠ .ended .panicNilClose := by
+  have h0 : NoPanic (startRoundE s E) := noPanic_startRoundWith _ _
+  have : ∀ (evs : List Ev) (s' : S), NoPanic s' → NoPanic (run s' evs) := by
+    intro evs
+    induction evs with
+    | nil => intro s' h; exact h
+    | cons e es ih => intro s' h; exact ih _ (noPanic_step _ e h)
+  have h := this evs _ h0
+  generalize run (startRoundE s E) evs = s' at h
+  unfold NoPanic at h
+  split at h
+  · rename_i w hw; simp [hw]
+  · rename_i e he
+    rw [he]
+    exact ⟨by intro hc; cases hc; exact h.1 rfl, by intro hc; cases hc; exact h.2 rfl⟩
+
+/-! non-vacuity: a header arrives right after `LastHash` returned; a reorg right after it -/
+
+def exTree : Tree :=
+  { parent := fun x =>
+      if x = 0 then none else if x ≤ 8 then some (x - 1)
+      else if x = 20 then some 6 else if x = 21 then some 20 else if x = 22 then some 21 else none,
+    height := fun x =>
+      if x ≤ 8 then x else if x = 20 then 7 else if x = 21 then 8 else if x = 22 then 9 else 0 }
+
+/-- tip 8 when `LastHash` is read, block 9 arrives before `HashHeight`: the plan is 5..8 with
+    their own heights (the code asks for the height OF THE HASH it read). -/
+example : (planResE (injectEnv { chain := [0, 1, 2, 3, 4, 5, 6, 7, 8] }
+      { chain := [0, 1, 2, 3, 4, 5, 6, 7, 8, 9] } .lastHash 1) (fun _ => false) 5).1
+    = .plan [5, 6, 7, 8] 5 := by decide
+/-- a reorg (7,8 replaced by 20,21,22) lands after the first `PreviousHash`: the old chain is
+    planned with its true heights; the request loop's poll will abandon it. -/
+example : (planResE (injectEnv { chain := [0, 1, 2, 3, 4, 5, 6, 7, 8] }
+      { chain := [0, 1, 2, 3, 4, 5, 6, 20, 21, 22], side := [(7, 7, 6), (8, 8, 7)] } .previousHash 1)
+      (fun _ => false) 5).1 = .plan [5, 6, 7, 8] 5 := by decide
+example : exTree.WF := by
+  intro (x : Nat) (p : Nat) h
+  simp only [exTree] at h ⊢
+  by_cases h0 : x = 0
+  · simp [h0] at h
+  · by_cases h8 : x ≤ 8
+    · simp only [h0, h8, ↓reduceIte, Option.some.injEq] at h
+      subst h
+      have h7 : x - 1 ≤ 8 := by omega
+      simp only [h8, h7, ↓reduceIte]
+      omega
+    · by_cases h20 : x = 20
+      · subst h20; simp at h; subst h; decide
+      · by_cases h21 : x = 21
+        · subst h21; simp at h; subst h; decide
+        · by_cases h22 : x = 22
+          · subst h22; simp at h; subst h; decide
+          · simp [h0, h8, h20, h21, h22] at h
+example : (View.mk [0, 1, 2, 3, 4, 5, 6, 20, 21, 22] 0 [(7, 7, 6), (8, 8, 7)]).Cons exTree := by
+  refine ⟨?_, ?_, ?_⟩
+  · intro h x hx
+    have hl : h < 10 := by
+      have := (List.getElem?_eq_some_iff.mp hx).1; simpa using this
+    have : h = 0 ∨ h = 1 ∨ h = 2 ∨ h = 3 ∨ h = 4 ∨ h = 5 ∨ h = 6 ∨ h = 7 ∨ h = 8 ∨ h = 9 := by omega
+    rcases this with rfl | rfl | rfl | rfl | rfl | rfl | rfl | rfl | rfl | rfl <;>
+      (simp at hx; subst hx; decide)
+  · intro h x y hx hy
+    have hl : h + 1 < 10 := by
+      have := (List.getElem?_eq_some_iff.mp hy).1; simpa using this
+    have : h = 0 ∨ h = 1 ∨ h = 2 ∨ h = 3 ∨ h = 4 ∨ h = 5 ∨ h = 6 ∨ h = 7 ∨ h = 8 := by omega
+    rcases this with rfl | rfl | rfl | rfl | rfl | rfl | rfl | rfl | rfl <;>
+      (simp at hx hy; subst hx; subst hy; decide)
+  · intro x h p hm
+    simp at hm
+    rcases hm with ⟨rfl, rfl, rfl⟩ | ⟨rfl, rfl, rfl⟩ <;> decide
 
 /-! ## 2. the request loop: every interleaving of polls, manager answers, interrupts and reorgs -/
 
